@@ -10,6 +10,7 @@ import TT.Driver.C11
 import TT.Driver.C12
 import TT.Driver.C13
 import TT.Driver.C15
+import TT.Driver.C16
 import TT.Driver.C18
 import TT.Driver.C19
 import TT.Driver.C20
@@ -33,6 +34,7 @@ def answer (line : String) : String :=
   | "c12" :: rest => c12 rest
   | "c13" :: rest => c13 rest
   | "c15" :: rest => c15 rest
+  | "c16" :: rest => c16 rest
   | "c18" :: rest => c18 rest
   | "c19" :: rest => c19 rest
   | "c20" :: rest => c20 rest
